@@ -322,7 +322,14 @@ def long_digit_run(s, n=300):
 def risky(s):
     """a TypeError (unhashable member of a set / key of a dict) or OverflowError (huge int + complex) can be
     raised while converting the nodes BEFORE a node that is no literal is reached"""
-    return 123 in s or long_digit_run(s)
+    seen = False
+    brace = False
+    for c in s:
+        if seen and c in (91, 123, 115):
+            brace = True
+        if c == 123:
+            seen = True
+    return brace or (long_digit_run(s) and (106 in s or 74 in s))
 
 
 def tokenize(s):
